@@ -12,6 +12,7 @@ import (
 )
 
 type Palette struct {
+	NoEmpty bool // WithoutEmptyValue was applied (recorded in replay files)
 	Name string
 	K    int
 	pos  [][]byte // 2K+1 strictly ascending byte strings
@@ -215,5 +216,6 @@ func New(name string, k int, seed int64) *Palette {
 // cannot handle empty values: the ics23 verifier rejects empty leaf values by design).
 func (p *Palette) WithoutEmptyValue() *Palette {
 	p.vals = append([][]byte{[]byte("v0")}, p.vals[1:]...)
+	p.NoEmpty = true
 	return p
 }
